@@ -74,7 +74,7 @@ def programs(draw, tier):
     nfiles = draw(st.integers(1, 3))
     ops = []
     for _ in range(draw(st.integers(2, 12 if tier == "quick" else 24))):
-        kind = draw(st.sampled_from(["save", "save", "save_again", "load", "load", "autoload", "randomise", "reinit", "train", "reserved", "model_saver", "drift_restore"]))
+        kind = draw(st.sampled_from(["save", "save", "save_again", "load", "load", "autoload", "randomise", "reinit", "train", "reserved", "model_saver", "drift_restore", "load_reinit_save"]))
         op = {"op": kind, "m": draw(st.integers(0, len(models) - 1)), "f": draw(st.integers(0, nfiles - 1)), "md": draw(st.integers(0, len(metas) - 1)),
               "loc": draw(st.sampled_from(["str", "str", "path", "fileobj"]))}     # documented: "location: str or file"
         if kind == "reserved":
@@ -175,6 +175,19 @@ def check(case):
                 for net in state.networks:
                     for p in getattr(state, net).parameters():
                         p.data.copy_(torch.randn_like(p))
+            elif kind == "load_reinit_save":
+                # a fixed four-step history on one model: save -> load the file back -> reinitialise -> save again -> autoload the second file
+                f1, f2 = os.path.join(tmp, f"lrs1_{mi}.pt"), os.path.join(tmp, f"lrs2_{mi}.pt")
+                state.save(f1)
+                state.load(f1)
+                state.reinitialize_parameters()
+                want_p, want_u = params_of(state), udict_of(state)
+                state.save(f2, md)
+                back = cls[spec["type"]].autoload(f2, gpu=False)
+                require(same_params(want_p, params_of(back)), "autoload:parameters:after-load-reinit-save",
+                        "a file saved after load -> reinitialise does not hold the model's current parameters")
+                require(same_udict(want_u, udict_of(back)), "autoload:unitary-dict:after-load-reinit-save", "unitary dictionary lost in load -> reinitialise -> save")
+                labels.add("load_reinit_save")
             elif kind == "drift_restore":
                 # save, let every parameter drift by a relative 1e-9 (e.g. a tiny update), restore from the file: bit-identical again
                 fp = os.path.join(tmp, f"drift_{mi}.pt")
